@@ -79,6 +79,14 @@ func (module *KafkaCluster) Configure(name, configRoot string) {
 	module.offsetRefresh = viper.GetInt(configRoot + ".offset-refresh")
 	module.topicRefresh = viper.GetInt(configRoot + ".topic-refresh")
 	module.groupsReaperRefresh = viper.GetInt(configRoot + ".groups-reaper-refresh")
+
+	// Start creates a ticker for each of these, which needs a positive period (a groups-reaper-refresh of 0 disables the reaper)
+	if module.offsetRefresh < 1 || module.topicRefresh < 1 {
+		panic("Cluster '" + name + "' must have an offset-refresh and a topic-refresh of at least 1 second")
+	}
+	if module.groupsReaperRefresh < 0 {
+		panic("Cluster '" + name + "' has a negative groups-reaper-refresh (use 0 to disable the groups reaper)")
+	}
 }
 
 // Start connects to the Kafka cluster using the Shopify/sarama client. Any error connecting to the cluster is returned
